@@ -129,6 +129,9 @@ def run(ctx):
     run_monitored(ctx, os_gcc, scns[:third], monitor, tag="hist-os")
     run_monitored(ctx, os_clang, scns[third:2 * third], monitor, tag="hist-clang-os")
     run_monitored(ctx, uchar, scns[2 * third:], monitor, tag="hist-uchar")
+    from . import c03_linux
+    c03_linux.run(ctx)
+    rep.rule += "; plus Discovers through the real Linux port (interposed sendto) with errno left at arbitrary values by earlier calls"
     c = rep.counters
     rep.need("accepted_discovers_judged", c.get("accepted_discovers_judged", 0), 2000)
     seen = lambda sub: sum(v for k, v in c.items() if k.startswith("class:") and all(x in k for x in sub))  # noqa
